@@ -603,8 +603,8 @@ wait:
 		case <-time.After(100 * time.Millisecond):
 			if n := out.length(); n != lastLen {
 				lastLen, lastGrowth = n, time.Now()
-			} else if time.Since(lastGrowth) > 12*time.Second {
-				// no event and no result for 12 s (the longest wait inside a case is 8 s): the child's runtime is
+			} else if time.Since(lastGrowth) > 16*time.Second {
+				// no event and no result for 16 s (the longest silent stretch of a healthy case is below 14 s): the child's runtime is
 				// wedged; what it streamed so far is all there will be
 				_ = cmd.Process.Kill()
 				<-exited
